@@ -4,7 +4,10 @@ CHECKS["C20"] = dict(
     rule=("Exhaustive: every cluster size n in 1..1,000,000 (each n is one distinct case; f is recomputed by search, "
           "not by the formula under test) for NumFaulty/QuorumSize: 2q-n>=f+1, q<=n-f, q-1 fails the first; "
           "RuntimeConfig.QuorumSize for n in 1..200, queried after every AddReplica while the membership grows; boundary certificates (QC, TC, AggQC) carrying q-1, q and n distinct "
-          "valid signatures for n in 1..13 and the three schemes, verified by another replica; collector thresholds "
+          "valid signatures for n in 1..13 and the three schemes, verified by another replica, and the same certificates with q-1 real "
+          "signatures PADDED to q (and to n) signer labels that have no signature behind them (BLS: bits in the participants field; "
+          "ECDSA/EdDSA: entries without bytes; an aggregate certificate lists no message for them) - the count reaches the threshold, "
+          "the signatures do not: refused; collector thresholds "
           "(timeout collector, vote collector, Kauri) are exercised at q-1/q for n in {4,7} by the C08/C09 harness units. "
           "Sampled (TestC20ConfigHistory): histories of up to 30 AddReplica (new and known ids out of 13) / ReplicaCount / QuorumSize "
           "operations and timeout-certificate checks with q-1 and q signatures through an Authority that shares the configuration: "
